@@ -356,6 +356,33 @@ fn selector_creds() -> Vec<(String, Fmt)> {
     out
 }
 
+/// Replaces the innermost value of a single-path chain by an object carrying `name` (descends through the first
+/// member / element that is a container).
+pub fn plant_at_bottom(v: &mut Value, name: &str) {
+    let next_is_container = match v {
+        Value::Object(m) => m.values().any(|x| x.is_object() || x.is_array()),
+        Value::Array(a) => a.iter().any(|x| x.is_object() || x.is_array()),
+        _ => false,
+    };
+    match v {
+        Value::Object(m) if next_is_container => {
+            if let Some(x) = m.values_mut().find(|x| x.is_object() || x.is_array()) {
+                plant_at_bottom(x, name);
+            }
+        }
+        Value::Array(a) if next_is_container => {
+            if let Some(x) = a.iter_mut().find(|x| x.is_object() || x.is_array()) {
+                plant_at_bottom(x, name);
+            }
+        }
+        Value::Object(m) => {
+            m.insert(name.to_string(), json!(1));
+        }
+        Value::Array(a) => a.push(json!({ name: 1 })),
+        _ => {}
+    }
+}
+
 fn issuer_inputs() -> Vec<(Value, Strat)> {
     let mut out = vec![];
     // every JSON value of <= 3 nodes as user_claims (non-objects included)
@@ -389,6 +416,18 @@ fn issuer_inputs() -> Vec<(Value, Strat)> {
             let t = chain(k, pat);
             for s in [Strat::NoSd, Strat::Top, Strat::All] {
                 out.push((t.clone(), s));
+            }
+        }
+    }
+    // the same chains with a reserved member name planted at the bottom (the refusal must come promptly however deep)
+    for k in [8usize, 16, 24, 32, 40, 48, 56, 63] {
+        for pat in [0u64, u64::MAX, 0xAAAA_AAAA_AAAA_AAAA] {
+            for name in ["_sd", "..."] {
+                let mut t = chain(k, pat);
+                plant_at_bottom(&mut t, name);
+                for s in [Strat::NoSd, Strat::All] {
+                    out.push((t.clone(), s));
+                }
             }
         }
     }
@@ -546,6 +585,39 @@ fn kb_value_cases() -> Vec<(String, Fmt)> {
                     out.push((p.serialize(fmt), fmt));
                 }
             }
+        }
+    }
+    // harness-signed credentials whose cnf takes every shape (no jwk member, jwk of every type, cnf of every type),
+    // each presented with a well-formed KB-JWT over it: the verifier is asked for aud / nonce and must return
+    let now = tokens::now();
+    let good_jwk = Hk::Es.jwk_value(0).unwrap();
+    let mut cnfs: Vec<Option<Value>> = vec![None, Some(json!({})), Some(json!({"kid": "x"})), Some(json!({"jwk": null})), Some(json!({"jwk": {}})), Some(json!({"jwk": {"kty": "EC"}})), Some(json!({"jwk": {"kty": "EC", "crv": "P-256", "x": "AA", "y": "AA"}})), Some(json!({"jwk": "x"})), Some(json!({"jwk": [good_jwk.clone()]})), Some(json!({"jwk": 5})), Some(json!({"JWK": good_jwk.clone()})), Some(json!({"jwk": good_jwk.clone(), "jwk2": 1}))];
+    cnfs.extend([json!("s"), json!(5), json!([]), json!([{"jwk": good_jwk.clone()}]), Value::Null, json!(true)].into_iter().map(Some));
+    // ... and credentials whose exp / nbf lie on and around the edge of the verifier's leeway (rejecting or accepting is
+    // C09's business and not asserted there; returning is asserted here)
+    let mut payloads: Vec<Value> = vec![];
+    for c in &cnfs {
+        let mut p = json!({"iss": gen::ISS, "exp": gen::EXP, "_sd_alg": "sha-256", "a": 1});
+        if let Some(c) = c {
+            p["cnf"] = c.clone();
+        }
+        payloads.push(p);
+    }
+    for off in [-3600i64, -121, -61, -60, -59, -31, -30, -1, 0, 1, 30, 59, 60, 61, 121] {
+        payloads.push(json!({"iss": gen::ISS, "exp": now + off, "_sd_alg": "sha-256", "a": 1, "cnf": {"jwk": good_jwk.clone()}}));
+        payloads.push(json!({"iss": gen::ISS, "exp": (now + off) as f64 + 0.5, "_sd_alg": "sha-256", "a": 1}));
+        payloads.push(json!({"iss": gen::ISS, "exp": gen::EXP, "nbf": now + off, "iat": now + off, "_sd_alg": "sha-256", "a": 1, "cnf": {"jwk": good_jwk.clone()}}));
+    }
+    for p in payloads {
+        let jwt = tokens::sign_payload(&p, Alg::HS256, 0);
+        let base_parts = Parts { jwt, disclosures: vec![], kb: None };
+        let pl = json!({"nonce": "nonce", "aud": "aud", "iat": now, "sd_hash": codec::digest(&base_parts.sd_hash_input())});
+        let kb = tokens::sign_json(&json!({"alg": "ES256", "typ": "kb+jwt"}), &pl, jsonwebtoken::Algorithm::ES256, &Hk::Es.enc(0).unwrap());
+        for fmt in codec::FMTS {
+            let mut q = base_parts.clone();
+            q.kb = Some(kb.clone());
+            out.push((q.serialize(fmt), fmt));
+            out.push((base_parts.serialize(fmt), fmt));
         }
     }
     out
